@@ -293,6 +293,24 @@ let vfmode file =
          | "ps:" -> let (r, s') = pcm_seek s (zi (arg ())) in st := Some s'; show tok (iz r) (-1) time implraw
          | "pp:" -> let (r, s') = pcm_seek_page s (zi (arg ())) in st := Some s'; show tok (iz r) (-1) time implraw
          | "rs:" -> let (r, s') = raw_seek s (zi (arg ())) in st := Some s'; show tok (iz r) (-1) time implraw
+         | "ts:" | "tp:" ->
+             (* ov_time_seek(_page): the double arithmetic of the C code, then the pcm seek *)
+             let seconds = float_of_string (String.sub tok 3 (String.length tok - 3)) in
+             let rates = List.map (fun t -> match String.split_on_char ':' t with
+                                   | [_; _; r; _; _; _] -> float_of_string r | _ -> 1.0) !refline in
+             if seconds < 0.0 then show tok (-131) (-1) time implraw else begin
+               let rec go ls rs tt pt = match ls, rs with
+                 | l :: lr, r :: rr ->
+                     let addsec = float_of_int (iz l.li_len) /. r in
+                     if seconds < tt +. addsec then Some (r, tt, pt) else go lr rr (tt +. addsec) (pt + iz l.li_len)
+                 | _, _ -> None in
+               match go s.v_links rates 0.0 0 with
+               | None -> show tok (-131) (-1) time implraw
+               | Some (r, tt, pt) ->
+                   let target = Int64.to_int (Int64.of_float (float_of_int pt +. (seconds -. tt) *. r)) in
+                   let (rc, s') = (if String.sub tok 0 3 = "ts:" then pcm_seek s (zi target) else pcm_seek_page s (zi target)) in
+                   st := Some s'; show tok (iz rc) (-1) time implraw
+             end
          | "rf:" -> let ((r, lk), s') = read_float (read_fuel s) s (zi (arg ())) in st := Some s'; show tok (iz r) (iz lk) time implraw
          | _ -> print_endline line)
     | "holes" :: _ | "closes" :: _ -> print_endline line
